@@ -230,3 +230,10 @@ impl Evaluator {
         });
     }
 }
+
+#[cfg(feature = "verif")]
+impl Candidate {
+    pub(crate) fn verif_nth(&self) -> usize {
+        self.nth
+    }
+}
